@@ -27,6 +27,18 @@ def main():
     for sc in scs3:
         sc["config"]["mw_subclass"] = True
     simcheck.run_family(ck, "user_subclass_of_the_simulation_middleware", scs3, propcheck.c06, "C06", "subclass")
+    # one strategy trading through TWO clients of the framework (same settings) on the same runners: the traded volume of an update is still handed
+    # out once per strategy, whichever client an order went through
+    scs4 = []
+    for _ in range(n // 3):
+        s = simgen.gen_scenario(rng, dict(opts, nstrats=[1, 2], p_place=0.75, p_iso=1.0))
+        s["clients"] = [dict(s["clients"][0]), dict(s["clients"][0])]
+        for e in s["script"]:
+            for a in e["acts"]:
+                if a[0] == "place" and rng.random() < 0.5:
+                    a[5] = dict(a[5] or {}, client=1)
+        scs4.append(s)
+    simcheck.run_family(ck, "one_strategy_through_two_clients", scs4, propcheck.c06, "C06", "twoclients")
     return ck.finish("scenarios on the real FlumineSimulation with cumulative traded ladders (1-2 increments per runner and update, repeats, unchanged ladders, volume going down, new prices), 1-3 strategies, isolation on/off, several resting orders per runner at equal/different prices and sides, queues captured at arrival, the stock simulation middleware or a user subclass of it registered first; compared with the Coq model (both tie-breaks); independent ledger of traded volume built from the raw updates and checked against every new passive fragment")
 
 
